@@ -21,7 +21,7 @@ PLAN = dict(
              "destructor chains, calls, cocases, goto, exit, print sequences; many definitions/parameters/constructors/types; long identifiers, comments, "
              "blank runs; unclosed brackets) at depth 10, 100, 1000 (or 1000 syntax-tree levels), 5000, each in a child process with the default 8 MiB "
              "stack and through the release scc binary; (f) 77 entry-point shapes (empty file, no main, main with 0..300 parameters, data/codata/"
-             "function/covariable parameters, main returning an object, main twice, definitions/variables/types named like runtime symbols); (g) 15% "
+             "function/covariable parameters, main returning an object, main twice, definitions/variables/types named like runtime symbols); 21 one-line texts with an error / no error around column 65536; (g) 15% "
              "certainly ill-typed mutants of generated programs and /repo/testsuite/fail_check. Every UTF-8 text: parse_module, check, fun2core, focus, "
              "shrink, linearize, three code generators, into_*_routine, every printer, each under catch_unwind; every non-UTF-8 text, every input of "
              "(d)(f) in 2 positions, every witness and every 25th other input (>= 100 per run): scc check / compile / codegen x86-64 / codegen "
